@@ -137,10 +137,11 @@ pub fn c01(ctx: &Ctx) -> (CheckMeta, Outcome) {
     }
     let mut out = run_all(tasks, threads());
     out.merge(long_histories("C01", ctx, false));
+    out.merge(crate::props::huge::c01_huge(ctx));
     let meta = CheckMeta {
         property: "C01".into(),
         level: "model_checking".into(),
-        rule: "explicit-state BFS over the real BufBitWriter (recording backend; state = Debug string (buffer, space_left) + model pending bits; rebuilt by replaying the shortest history) for E x W in {8,16,32,64,128}; alphabet write_bits(n 0..=64 x 4 value patterns x {clean, bit n set, all bits >= n set}), write_unary(0..=2W+1, 3W-1, 3W, 3W+1, 5W+3), flush; every transition: return value and words delivered during the step vs the bit-vector model; every node's history is replayed on vec/vecref/slice/adapter/adapter-over-a-3-byte-sink/adapter-over-a-lazy-sink (commits on flush only)/rec backends with flush, flush;flush, into_inner, drop and the whole byte image compared (traces_validated_against_impl counts these replays); plus a deep-and-narrow exploration (7-letter alphabet: 1 bit, W-1 ones, 64 bits, 7 dirty bits, unary 0, unary W, flush; depth 7, thorough 9); plus long streams: unary codes of 32 767..70 001 zeros (thorough up to 262 149), alone, between writes and across a flush, and 1 200 fixed-width writes, on every real backend".into(),
+        rule: "explicit-state BFS over the real BufBitWriter (recording backend; state = Debug string (buffer, space_left) + model pending bits; rebuilt by replaying the shortest history) for E x W in {8,16,32,64,128}; alphabet write_bits(n 0..=64 x 4 value patterns x {clean, bit n set, all bits >= n set}), write_unary(0..=2W+1, 3W-1, 3W, 3W+1, 5W+3), flush; every transition: return value and words delivered during the step vs the bit-vector model; every node's history is replayed on vec/vecref/slice/adapter/adapter-over-a-3-byte-sink/adapter-over-a-lazy-sink (commits on flush only)/rec backends with flush, flush;flush, into_inner, drop and the whole byte image compared (traces_validated_against_impl counts these replays); plus a deep-and-narrow exploration (7-letter alphabet: 1 bit, W-1 ones, 64 bits, 7 dirty bits, unary 0, unary W, flush; depth 7, thorough 9); plus long streams: unary codes of 32 767..70 001 zeros (thorough up to 262 149), alone, between writes and across a flush, and 1 200 fixed-width writes, on every real backend; plus unary codes around and beyond 2^32 (x in 2^32-2, 2^32-1, 2^32, 2^32+1, 2^32+W-2, 2^32+W; thorough more and all word sizes) after 0, 1, W/2, W-1 pending bits into a sink that keeps only the non-zero words and the word count".into(),
         assumptions: vec!["reference model = canonical layout (harness/src/model.rs)".into(), "by parametricity in the WordWrite backend the writer's future depends on (buffer, space_left) only".into()],
     };
     (meta, out)
@@ -212,10 +213,11 @@ pub fn c12(ctx: &Ctx) -> (CheckMeta, Outcome) {
     let mut out = run_all(tasks, threads());
     out.merge(crate::props::readers::c12_read(ctx));
     out.merge(long_histories("C12", ctx, true));
+    out.merge(c12_alignment(ctx));
     let meta = CheckMeta {
         property: "C12".into(),
         level: "model_checking".into(),
-        rule: "write side: BFS over the real BufBitWriter for E x W in {8..128}: level 0 reaches every buffer fill level (every starting bit offset), then std::io::Write::write of every slice length 0..=40 (two byte patterns) and 41,47,48,49,63,64,65,100, then further byte writes / boundary bit writes / flush / io::Write::flush; returned count must equal the slice length, delivered words and final images on all real backends must equal the model (byte = 8 stream bits in stream order); read side: BFS to the fixpoint of every reader kind over zero-extended/strict/Cursor backends with io::Read of every length 0..=40 at every reachable state; plus single byte writes of 4 097, 65 535, 65 536, 65 537 and 100 003 bytes (thorough up to 2^20+1) at bit offsets 0 and 3 on every real backend".into(),
+        rule: "write side: BFS over the real BufBitWriter for E x W in {8..128}: level 0 reaches every buffer fill level (every starting bit offset), then std::io::Write::write of every slice length 0..=40 (two byte patterns) and 41,47,48,49,63,64,65,100, then further byte writes / boundary bit writes / flush / io::Write::flush; returned count must equal the slice length, delivered words and final images on all real backends must equal the model (byte = 8 stream bits in stream order); read side: BFS to the fixpoint of every reader kind over zero-extended/strict/Cursor backends with io::Read of every length 0..=40 at every reachable state; plus single byte writes of 4 097, 65 535, 65 536, 65 537 and 100 003 bytes (thorough up to 2^20+1) at bit offsets 0 and 3 on every real backend; plus the address-alignment sweep: every slice length 0..=40 x every start address modulo 8 of the caller's slice x starting bit offsets (all 0..=2W+1 for W <= 16 and in the thorough tier, boundary offsets otherwise) on the writer of every word size, and on every reader kind (every offset 0..=2W+1, every length); in the BFS sections the slice address is (3 len + 1) mod 8".into(),
         assumptions: vec!["reference model = canonical layout".into()],
     };
     (meta, out)
@@ -281,12 +283,13 @@ pub fn c08(ctx: &Ctx) -> (CheckMeta, Outcome) {
     let mut out = crate::props::readers::c08_source(ctx);
     out.merge(c08_dest(ctx));
     out.merge(crate::props::readers::c08_long(ctx));
+    out.merge(crate::props::huge::c08_huge(ctx));
     let variant = if cfg!(feature = "no_copy_impls") { "generic copy paths (no_copy_impls)" } else { "optimised copy paths" };
     out.cov.notes.push(format!("this binary was built with the {}", variant));
     let meta = CheckMeta {
         property: "C08".into(),
         level: "model_checking".into(),
-        rule: "the reader x writer product is cut along the copy step. Source view: BFS to the FIXPOINT of the real reader (Buf8..Buf64, unbuffered; zero-extended, strict, Cursor backends; Count wrapper) whose alphabet contains, besides boundary reads/peeks/skips, all table and table-free code reads and seeks, copy_to/copy_from of n bits (quick: 0,1,2,W/2,W-1,W,W+1; thorough: every n in 0..=2W+2; both plus 2W-1..2W+1, 3W+2, 5W+7, 8W, 200) into a fresh writer of every word size 8..128 pre-filled with 2 (thorough 6) bit counts; the destination's whole image (prefill ++ copied bits ++ sentinel) is compared with the model and the source continues as an ordinary BFS state, so EVERY continuation of EVERY post-copy state is explored. Destination view: BFS (depth 3) over the real writer: fill level, copy-in from a fresh source reader of every kind advanced by k bits and optionally peeked (more than one word buffered), continuation writes; delivered words and final images on real backends vs the model. Long-copy grid: single copies of B words + r bits (B in 127,128,129,256,1024 (thorough: 15 values from 63 to 1025), word = source or destination word, r in 0,1,5,21,W-1) from every source kind into every destination word size, 3 destination fills, 2 source offsets, both directions, with the source's position and next bits checked. All three are run on the build with the optimised copy paths and on the build with --features no_copy_impls".into(),
+        rule: "the reader x writer product is cut along the copy step. Source view: BFS to the FIXPOINT of the real reader (Buf8..Buf64, unbuffered; zero-extended, strict, Cursor backends; Count wrapper) whose alphabet contains, besides boundary reads/peeks/skips, all table and table-free code reads and seeks, copy_to/copy_from of n bits (quick: 0,1,2,W/2,W-1,W,W+1; thorough: every n in 0..=2W+2; both plus 2W-1..2W+1, 3W+2, 5W+7, 8W, 200) into a fresh writer of every word size 8..128 pre-filled with 2 (thorough 6) bit counts; the destination's whole image (prefill ++ copied bits ++ sentinel) is compared with the model and the source continues as an ordinary BFS state, so EVERY continuation of EVERY post-copy state is explored. Destination view: BFS (depth 3) over the real writer: fill level, copy-in from a fresh source reader of every kind advanced by k bits and optionally peeked (more than one word buffered), continuation writes; delivered words and final images on real backends vs the model. Long-copy grid: single copies of B words + r bits (B in 127,128,129,256,1024 (thorough: 15 values from 63 to 1025), word = source or destination word, r in 0,1,5,21,W-1) from every source kind into every destination word size, 3 destination fills, 2 source offsets, both directions, with the source's position and next bits checked. Huge copies: single copies of 2^32 and 2^32+3 bits (thorough: also 2^32-1, 2^32+64, 3*2^31+17; destination words 32/64/128) from a buffered reader over a synthetic word source into a buffered writer over a comparing sink, both directions, every destination byte, the byte count, the source position and the source's next 64 bits checked. All of these are run on the build with the optimised copy paths and on the build with --features no_copy_impls".into(),
         assumptions: vec!["reference model = canonical layout".into()],
     };
     (meta, out)
@@ -346,10 +349,11 @@ pub fn c14_write(ctx: &Ctx) -> Outcome {
 pub fn c14(ctx: &Ctx) -> (CheckMeta, Outcome) {
     let mut out = crate::props::readers::c14_read(ctx);
     out.merge(c14_write(ctx));
+    out.merge(c14_grid(ctx));
     let meta = CheckMeta {
         property: "C14".into(),
         level: "model_checking".into(),
-        rule: "the reader BFS (to the fixpoint) and the writer BFS (depth 3) are re-run with the object wrapped in CountBitReader/CountBitWriter and DbgBitReader/DbgBitWriter; alphabet = every trait method reachable through the wrapper: read_bits/peek/skip/unary, the parameterless gamma/delta/zeta methods, every table-parameterised variant (which reach the stream through the wrapper's peek_bits/skip_bits_after_peek), omega, pi, rice, golomb, exp-golomb, minimal binary, vbyte, copy_to/copy_from, flush; oracle: values, delivered words and positions identical to the unwrapped model; bits_read = bits consumed since the wrapper was created (= inner bit_pos when created at 0; the wrapper is also created on a reader that has already consumed 13 bits, and seeks through the wrapper are explored to depth 3 with the positions checked) and bits_written = bits written by operations, after EVERY transition including flushes".into(),
+        rule: "the reader BFS (to the fixpoint) and the writer BFS (depth 3) are re-run with the object wrapped in CountBitReader/CountBitWriter and DbgBitReader/DbgBitWriter; alphabet = every trait method reachable through the wrapper: read_bits/peek/skip/unary, the parameterless gamma/delta/zeta methods, every table-parameterised variant (which reach the stream through the wrapper's peek_bits/skip_bits_after_peek), omega, pi, rice, golomb, exp-golomb, minimal binary, vbyte, copy_to/copy_from, flush; oracle: values, delivered words and positions identical to the unwrapped model; bits_read = bits consumed since the wrapper was created (= inner bit_pos when created at 0; the wrapper is also created on a reader that has already consumed 13 bits, and seeks through the wrapper are explored to depth 3 with the positions checked) and bits_written = bits written by operations, after EVERY transition including flushes; plus a grid through the Count wrappers: every code x parameter of the C03 grid (zeta/pi/rice/exp-golomb 0..=63, Golomb and minimal-binary moduli up to 2^64-1, vbyte) x its boundary values (every 2^i-2..2^i+2, length steps, maxima), written through CountBitWriter after 5 pending bits and read through CountBitReader (every table variant the reader admits) at bits 0 and 5: value, position and counter".into(),
         assumptions: vec!["flush padding is not counted as written bits (flush reports pending bits, which were counted when written)".into()],
     };
     (meta, out)
@@ -416,6 +420,189 @@ pub fn long_histories(prop: &'static str, ctx: &Ctx, with_io: bool) -> Outcome {
                                     replay: if h.len() <= 4 && !with_io { replay_doc(e, wbits, "", backend, finisher, h) } else { serde_json::json!({"kind": "none", "note": "long history; re-run the check"}) },
                                 });
                             }
+                        }
+                    }
+                }
+                out
+            }));
+        }
+    }
+    run_all(tasks, threads())
+}
+
+
+/// The std::io views receive caller-owned byte slices: every slice length 0..=40 at every start
+/// address modulo 8 (an implementation may move the aligned middle of a slice word-wise), at every
+/// starting bit offset, on the writer (all word sizes) and on every reader kind.
+pub fn c12_alignment(ctx: &Ctx) -> Outcome {
+    use crate::model::Bits;
+    use crate::rd::{make_reader, ROp, KINDS};
+    use crate::rdsys::{explore as rexplore, RdModel, RdRun};
+    use crate::report::Violation;
+    let mut tasks: Vec<Task> = vec![];
+    for e in End::BOTH {
+        for wbits in WBITS {
+            let thorough = ctx.thorough;
+            tasks.push(Box::new(move || {
+                let mut out = Outcome::new();
+                let cfg = format!("{}/align", cfg_id(e, wbits, ""));
+                out.cov.configs.insert(cfg.clone());
+                let offs: Vec<usize> = if thorough || wbits <= 16 { (0..=2 * wbits.min(64) + 1).collect() } else { vec![0, 1, 3, 7, 8, 9, wbits - 1, wbits, wbits + 1] };
+                for align in 0..8u8 {
+                    crate::util::set_io_align(Some(align));
+                    for len in 0..=40usize {
+                        let bytes = io_patterns(len.max(1))[0][..len].to_vec();
+                        for &o in &offs {
+                            let mut h: Vec<WOp> = vec![];
+                            let mut left = o;
+                            while left > 0 {
+                                let c = left.min(61);
+                                h.push(WOp::WriteBits { v: 0x6B8B_4567_327B_23C6 & mask(c as u8), n: c as u8 });
+                                left -= c;
+                            }
+                            h.push(WOp::IoWrite(bytes.clone()));
+                            h.push(WOp::WriteBits { v: 0b1011001, n: 7 });
+                            out.cov.transitions += h.len() as u64;
+                            out.cov.traces_validated += 1;
+                            out.cov.evaluations += 1;
+                            if align != 0 && len > 1 {
+                                out.cov.nontrivial += 1;
+                            }
+                            if let Err((symptom, detail)) = check_real(e, wbits, "vec", "flush", &h) {
+                                if out.violations.len() < 12 {
+                                    out.violations.push(Violation {
+                                        property: "C12".into(),
+                                        system: "writer-backend:vec:flush".into(),
+                                        config: cfg.clone(),
+                                        op_class: "io_write".into(),
+                                        symptom,
+                                        detail: format!("slice of {} bytes starting at address = {} mod 8, stream offset {}: {}", len, align, o, detail.chars().take(300).collect::<String>()),
+                                        replay: replay_doc(e, wbits, "", "vec", "flush", &h),
+                                    });
+                                }
+                            }
+                        }
+                    }
+                }
+                crate::util::set_io_align(None);
+                out
+            }));
+        }
+        for kind in KINDS {
+            let diag = ctx.diag[kind];
+            let seed = ctx.seed;
+            tasks.push(Box::new(move || {
+                let mut out = Outcome::new();
+                let img = &crate::images::images(e, 512, seed, false)[0];
+                let model = RdModel { bits: Bits::from_bytes(&img.bytes, e), e, zx: false, limit: 512, tables_ok: diag };
+                let w = match kind {
+                    "buf8" => 8usize,
+                    "buf16" => 16,
+                    "buf32" => 32,
+                    _ => 64,
+                };
+                // depth 2: every starting offset 0..=2W+1 (one skip), then every length
+                let mut alphabet: Vec<ROp> = (1..=(2 * w + 1) as u16).map(ROp::Skip).collect();
+                for len in 0..=40u16 {
+                    alphabet.push(ROp::IoRead(len));
+                }
+                for align in 0..8u8 {
+                    crate::util::set_io_align(Some(align));
+                    let rd = make_reader(e, kind, "memstrict", "", &img.bytes);
+                    let run = RdRun { property: "C12", model: &model, image: &img.bytes, alphabet: &alphabet, max_states: 40_000, check_counter: false, max_depth: 2 };
+                    out.merge(rexplore(&run, rd));
+                }
+                crate::util::set_io_align(None);
+                out
+            }));
+        }
+    }
+    run_all(tasks, threads())
+}
+
+
+/// C14 grid: the wrappers compute their counters from the length functions of the codes, so the
+/// counters are compared on the whole (code, parameter, boundary value) grid, not only on the few
+/// codes of the state-space alphabets.
+pub fn c14_grid(ctx: &Ctx) -> Outcome {
+    use crate::model::{encode, ref_len, Bits};
+    use crate::rd::{make_reader, ROp};
+    use crate::rdsys::{explore as rexplore, RdModel, RdRun};
+    use crate::report::Violation;
+    let mut tasks: Vec<Task> = vec![];
+    let codes = crate::grid::all_codes(ctx.seed);
+    let kinds: Vec<&'static str> = if ctx.thorough { vec!["buf16", "buf32", "buf64", "unbuf"] } else { vec!["buf32", "unbuf"] };
+    const CHUNK: usize = 24;
+    for e in End::BOTH {
+        for (ci, chunk) in codes.chunks(CHUNK).enumerate() {
+            let chunk: Vec<crate::model::Code> = chunk.to_vec();
+            let diag = ctx.diag.clone();
+            let seed = ctx.seed;
+            let kinds = kinds.clone();
+            tasks.push(Box::new(move || {
+                let mut out = Outcome::new();
+                let cfg = format!("{}/count-grid", e.name());
+                out.cov.configs.insert(cfg.clone());
+                let _ = ci;
+                for code in chunk {
+                    for v in crate::grid::boundary_values(code, seed, 2) {
+                        let len = ref_len(code, v) as usize;
+                        if len > 300 {
+                            continue;
+                        }
+                        // write side
+                        let mut w = make_rec_writer(e, 64, "count");
+                        let o1 = w.apply(&WOp::WriteBits { v: 0b10110, n: 5 });
+                        let o2 = w.apply(&WOp::Code { code, v });
+                        let c = w.counter();
+                        out.cov.evaluations += 1;
+                        out.cov.nontrivial += 1;
+                        let bad = match (&o1, &o2) {
+                            (WObs::Ret(5), WObs::Ret(n)) if *n == len => {
+                                if c == Some(5 + len as u64) {
+                                    None
+                                } else {
+                                    Some(("counter", format!("bits_written = {:?} after 5 bits and a {}-bit codeword", c, len)))
+                                }
+                            }
+                            (_, WObs::Panic(m)) => Some(("panic", m.clone())),
+                            _ => Some(("value", format!("write returned {:?}, the codeword has {} bits", o2, len))),
+                        };
+                        if matches!(o2, WObs::Panic(_)) {
+                            w.forget();
+                        }
+                        if let Some((symptom, detail)) = bad {
+                            if out.violations.len() < 24 {
+                                out.violations.push(Violation {
+                                    property: "C14".into(),
+                                    system: "writer".into(),
+                                    config: format!("{}/w64/count", e.name()),
+                                    op_class: "code_write".into(),
+                                    symptom: symptom.into(),
+                                    detail: format!("{} of {} through CountBitWriter: {}", code.name(), v, detail),
+                                    replay: replay_doc(e, 64, "count", "rec", "flush", &[WOp::WriteBits { v: 0b10110, n: 5 }, WOp::Code { code, v }]),
+                                });
+                            }
+                        }
+                        // read side
+                        let mut bits = Bits::new();
+                        bits.push_field(0b10110, 5, e);
+                        let cw = encode(code, v, e);
+                        for i in 0..cw.len() {
+                            bits.push_bit(cw.bit(i).unwrap());
+                        }
+                        bits.push_field(0b1011001, 7, e);
+                        while bits.len() % 64 != 0 {
+                            bits.push_bit(1);
+                        }
+                        let bytes = bits.to_bytes(e, 64);
+                        let mut alphabet = vec![ROp::Skip(5)];
+                        alphabet.extend(crate::streams::read_variants(code, false));
+                        for kind in &kinds {
+                            let model = RdModel { bits: Bits::from_bytes(&bytes, e), e, zx: false, limit: bits.len(), tables_ok: diag[*kind] };
+                            let rd = make_reader(e, kind, "memstrict", "count", &bytes);
+                            let run = RdRun { property: "C14", model: &model, image: &bytes, alphabet: &alphabet, max_states: 1000, check_counter: true, max_depth: 2 };
+                            out.merge(rexplore(&run, rd));
                         }
                     }
                 }
